@@ -185,15 +185,25 @@ def run_scenario(cfg):
         sampler = make_sampler(kind, ps["coef"], ps["cap"], float(ps.get("delay_s") or 0.0))
         par = cfg["parallel"][k]
         try:
+            entry = cfg.get("entry")        # None: the toast functions directly; else through Builder.toast_base
+            if entry:
+                from toasty.builder import Builder
+                bkw = {"is_planet": True} if (entry == "builder_is_planet" and planetary) else {"coordsys": coordsys}
             if cfg["mode"] == "clobber":
-                toast.sample_layer(pio, sampler, depth, coordsys=coordsys, format=cfg["format"], parallel=par)
+                if entry:
+                    Builder(pio).toast_base(sampler, depth, parallel=par, **bkw)
+                else:
+                    toast.sample_layer(pio, sampler, depth, coordsys=coordsys, format=cfg["format"], parallel=par)
             else:
                 if ps["leaves"] == "all":
                     filt = lambda t: True
                 else:
                     acc = _accepted_set(depth, [tuple(l) for l in ps["leaves"]])
                     filt = lambda t, acc=acc: (t.pos.n, t.pos.x, t.pos.y) in acc
-                toast.sample_layer_filtered(pio, filt, sampler, depth, coordsys=coordsys, parallel=par)
+                if entry:
+                    Builder(pio).toast_base(sampler, depth, tile_filter=filt, parallel=par, **bkw)
+                else:
+                    toast.sample_layer_filtered(pio, filt, sampler, depth, coordsys=coordsys, parallel=par)
         except BaseException as e:   # the property forbids any failure here
             problems.append({"obligation": "rt/sample_layer/runs", "pass_index": k,
                              "error": "%s: %s" % (type(e).__name__, e),
@@ -448,7 +458,27 @@ def build_scenarios(ctx):
         sc.append(update_cfg(rng, 0, "planetary", "fits", "f32", [1], 1, tag="u-depth0"))
         sc.extend(slow_sampler_cfgs(True))
     sc.extend(reclobber_cfgs(rng, ctx.thorough))
+    sc.extend(builder_cfgs(ctx))
     return sc
+
+
+def builder_cfgs(ctx):
+    """The same obligations through the Builder entry point (``Builder.toast_base`` forwards sampler, depth, coordinate system,
+    filter and worker count to sample_layer / sample_layer_filtered): both coordinate systems, with and without a tile
+    filter.  Own generator, so the older scenario streams are unchanged."""
+    import random
+    rng = random.Random("c06/builder/%s" % getattr(ctx, "seed", 0))
+    out = []
+    combos = [("npy", "f64"), ("fits", "f32")] + ([("png", "rgba"), ("npy", "f32")] if ctx.thorough else [])
+    for n, (pf, kind) in enumerate(combos):
+        for cs, entry in (("astronomical", "builder_coordsys"), ("planetary", "builder_coordsys"), ("planetary", "builder_is_planet")):
+            c = clobber_cfg(1 + n % 2, cs, pf, kind, 1 + n % 2, coef=rand_coef(rng), tag="builder-clobber")
+            c["entry"] = entry
+            out.append(c)
+            u = update_cfg(rng, 2, cs, pf, kind, [1, 2], 2 if ctx.thorough else 1, tag="builder-update")
+            u["entry"] = entry
+            out.append(u)
+    return out
 
 
 def reclobber_cfgs(rng, thorough):
@@ -535,6 +565,8 @@ def execute(cfg, workdir):
 def witness_of(cfg, extra):
     w = {k: cfg[k] for k in ("depth", "coordsys", "pio_format", "format", "scheme", "kind", "mode", "parallel",
                              "passes", "seed_tag")}
+    if cfg.get("entry"):
+        w["entry"] = cfg["entry"]
     w.update(extra)
     return w
 
@@ -651,6 +683,8 @@ def replay(obligation, witness):
     import shutil
     cfg = {k: witness[k] for k in ("depth", "coordsys", "pio_format", "format", "scheme", "kind", "mode", "parallel",
                                     "passes", "seed_tag")}
+    if witness.get("entry"):
+        cfg["entry"] = witness["entry"]
     wd = tempfile.mkdtemp(prefix="c06_replay_")
     try:
         status, res, secs, t = execute(cfg, os.path.join(wd, "p"))
